@@ -255,6 +255,8 @@ def normalise(res, R, exact):
         units = {k: Fraction(v) for k, v in res._units.items()}
         f, root, dim, tainted, nops = R.resolve_compound(units)
         m = res.magnitude
+        if exact and not isinstance(f, Fraction):
+            raise Skip("irrational_factor_of_reduced_units")  # auto-reduced units such as are ** 2.5: no exact comparison
         if exact:
             if isinstance(m, float):
                 return ("q", "FLOAT", m * float(f), dim)
